@@ -354,7 +354,8 @@ fn chunker_config_from_params<R>(
     // Parameters no chunker can run with would make a later scan of a seed panic or never end.
     let valid = match algorithm {
         Ok(ChunkingAlgorithm::Buzhash) | Ok(ChunkingAlgorithm::Rollsum) => {
-            (1..=32).contains(&p.chunk_filter_bits)
+            // More than 30 bits can not be expressed as an average chunk size
+            (1..=30).contains(&p.chunk_filter_bits)
                 && p.rolling_hash_window_size >= 1
                 && p.max_chunk_size >= 1
                 && p.min_chunk_size <= p.max_chunk_size
